@@ -307,4 +307,6 @@ def run(ctx):
     rs = [rule_tags(ctx), rule_quote(ctx), rule_refs(ctx),
           _retag(rule_render(ctx), 'C09', 'C09.render'),
           _retag(c04_quote(ctx), 'C09', 'C09.ids')]
+    from .modelstate import rule_emptied
+    rs.append(rule_emptied(ctx, 'C09', 'C09.source', ops=('to_dict',)))
     return rs
